@@ -4,7 +4,8 @@
                                                parent directory's MatchInfo handed down as arguments;
                                                a nil matcher answers true / false with an empty info)
      copier.copy                            -> copy_node           (include := inc && !exc; "" = the
-                                               top-level source is always included)
+                                               top-level source is always included; the lstat of the
+                                               target tolerates ENOENT and ENOTDIR)
      copier.createParentDirs                -> create_parents      (parentDirs stack, [copied] flag,
                                                copyDirectoryOnly + copyFileInfo + copyXAttrs with the
                                                SOURCE directory's FileInfo when the directory is created)
@@ -88,7 +89,7 @@ Definition blank_dir (p : bytes) : entry :=
       st_devmajor := 0; st_devminor := 0; st_xattrs := [] |}, []).
 
 (* ---------- results ---------- *)
-Inductive cerr := EDirOverNondir | ENondirOverDir | ENoParent | ENotDir.
+Inductive cerr := EDirOverNondir | ENondirOverDir | ENoParent.
 
 (* one materialised source entry: its stat (Path = relative path), content, and whether it passed
    include/exclude itself (false = a parent created on demand by createParentDirs) *)
@@ -132,18 +133,11 @@ Fixpoint create_parents (S : list pdir) (fs : dfs) : R :=
       end
   end.
 
-(* os.Lstat(target) at the top of copier.copy, for EVERY visited source entry (selected or not):
-   ENOENT is tolerated, any other error aborts the copy ("failed to stat").  The lookup fails
-   with ENOTDIR when, going down from the landing target, a non-directory is met before a missing
-   component: a pending parent whose path is taken by a non-directory in the destination. *)
-Fixpoint enotdir (S : list pdir) (fs : dfs) : bool :=
-  match S with
-  | [] => false
-  | d :: r => match fs (st_path (pd_st d)) with
-              | None => false
-              | Some e => if e_dir e then enotdir r fs else true
-              end
-  end.
+(* os.Lstat(target) at the top of copier.copy, for every visited source entry (selected or not):
+   ENOENT and ENOTDIR are tolerated (targetFi = nil).  ENOTDIR means that a pending parent's path
+   is taken by a non-directory in the destination; that only matters if something below it is
+   selected, and createParentDirs / copyDirectoryOnly report it then (EDirOverNondir).  Other
+   lstat errors are I/O errors (not modelled). *)
 
 Section CopySel.
 Variable pmatch : bytes -> bytes -> bool.
@@ -165,7 +159,6 @@ Fixpoint copy_node (dir : bytes) (n : node) (pinc pexc : list bool) (S : list pd
     let re := sel_exc p pexc in
     let include := fst ri && negb (fst re) in
     let it := {| l_st := st; l_ct := ct; l_sel := true |} in
-    if enotdir S fs then (fs, S, [], Some ENotDir) else
     match (if include then create_parents S fs else (fs, S, [], None)) with
     | (fs1, S1, em1, Some e) => (fs1, S1, em1, Some e)
     | (fs1, S1, em1, None) =>
